@@ -8,6 +8,12 @@ CLAIMED = {
  "C01": dict(level="exploration", tech="deterministic simulation: seeded interleavings of SSO / login-completion / callback tasks parked at every storage call, storage-fault injection, reference session model at the storage linearisation point",
    text="Seeded search over whole-system executions: several sessions, callbacks fired before/while/after login completion, duplicated, with foreign/unknown ids, under storage errors, key faults, request deletion, replica restarts and clock jumps; every callback reply is decoded independently and judged against the snapshot the storage handed to that very task. Sampling, not proof; exploration is the right level because the property quantifies over histories and interleavings that only a history-carrying simulator reaches.",
    ref="§5 C01", note="Trusts synctest's fake clock and quiescence detection, the simulator's storage semantics (immutable snapshot per AuthRequestByID call), and the independent XML/HTML decoders."),
+ "C08": dict(level="exploration", tech="deterministic simulation: seeded SSO requests (conformant, deviating at each validation step, tampered, duplicated) against SP registrations with unsupported bindings, storage/body/writer fault injection, per-request persist count vs. independently decoded reply shape",
+   text="Seeded search over SSO executions: per request the number of successful persists recorded by the simulated storage is compared with the shape of the single reply as decoded by an independent HTML/XML/redirect reader (303 to the login URL of the returned id, or exactly one non-Success Response / plain HTTP error; never empty, never several messages), under persist failures, body-read faults, duplicated submissions and interleaving with other requests.",
+   ref="§5 C08", note="Trusts the simulator's storage (persist = successful CreateAuthRequest) and the independent reply decoders; writer-fault runs judge the persist count only."),
+ "C10": dict(level="fault_enumeration", tech="deterministic simulation with exhaustive single- and pair-fault injection at every storage call of every endpoint workload (with a concurrent bystander request), followed by seeded random fault schedules and a post-fault recovery phase",
+   text="Stage 1 enumerates completely, for a fixed catalogue (4 provider configurations × 12 workloads × 3 bystander settings), every storage call × every fault kind the property names (error; for the key getters nil record, key without certificate, certificate without key, empty certificate; unusable algorithm as configuration), singly and in all pairs; stage 2 samples random worlds and fault schedules. Each faulted request must end in HTTP 5xx or a non-Success SAML message without subject, attribute, signature or user marker, without panic and without later persistence; the bystander's reply must equal its fault-free reply; afterwards a recovery flow must succeed.",
+   ref="§5 C10", note="The enumeration is complete for the catalogue only; arbitrary configurations are sampled. Trusts the simulator's fault injector and reply decoders."),
 }
 
 NOT_APPLICABLE = {
